@@ -1,0 +1,20 @@
+/*
+Copyright 2023 The bpmn Authors
+
+Licensed under the Apache License, Version 2.0 (the "License");
+you may not use this file except in compliance with the License.
+You may obtain a copy of the License at
+
+    http://www.apache.org/licenses/LICENSE-2.0
+
+Unless required by applicable law or agreed to in writing, software
+distributed under the License is distributed on an "AS IS" BASIS,
+WITHOUT WARRANTIES OR CONDITIONS OF ANY KIND, either express or implied.
+See the License for the specific language governing permissions and
+limitations under the License.
+*/
+
+// Package verifhook provides named instrumentation points for external
+// verification harnesses. Without the `verif` build tag every function in
+// this package is an empty, inlinable no-op.
+package verifhook
